@@ -10,6 +10,7 @@
 #include <tao/pegtl/contrib/input_with_depth.hpp>
 #include <tao/pegtl/contrib/limit_bytes.hpp>
 #include <tao/pegtl/contrib/limit_depth.hpp>
+#include <tao/pegtl/contrib/rep_one_min_max.hpp>
 
 #include "harness/engine.hpp"
 #include "harness/rc_util.hpp"
@@ -386,6 +387,11 @@ namespace b
    {};
    struct k_until_eolf : until< eolf >
    {};
+   // hand-written scanning loops
+   struct k_rep_one : rep_one_min_max< 1, 3, 'a' >
+   {};
+   struct k_rep_one0 : seq< rep_one_min_max< 0, 2, 'a' >, opt< one< '\r' > > >
+   {};
 
    struct span
    {
@@ -421,6 +427,8 @@ namespace b
    GUARDED( k_utf8_one );
    GUARDED( k_eol );
    GUARDED( k_until_eolf );
+   GUARDED( k_rep_one );
+   GUARDED( k_rep_one0 );
 
    struct record
    {
@@ -682,6 +690,8 @@ static void bytes_split_units( const std::string& s )
    check_bytes_case< b::k_eol, N, p::normal, p::eol::crlf >( "seq<star<a>,eol>/crlf", s );
    check_bytes_case< b::k_until_eolf, N >( "until<eolf>/lf_crlf", s );
    check_bytes_case< b::k_until_eolf, N, p::normal, p::eol::cr_crlf >( "until<eolf>/cr_crlf", s );
+   check_bytes_case< b::k_rep_one, N >( "rep_one_min_max<1,3,a>", s );
+   check_bytes_case< b::k_rep_one0, N >( "seq<rep_one_min_max<0,2,a>,opt<CR>>", s );
 }
 
 // units that a byte limit can split (kept apart from bytes_input: another alphabet)
